@@ -200,6 +200,24 @@ def build(spec):
         return {build(k): build(v) for k, v in spec[1]}
     if t == "obj":
         return Obj(**{name: build(s) for name, s in spec[1]})
+    if t == "cyc":  # object graphs with back-references (pickle's memo must handle them)
+        kind = spec[1]
+        if kind == "list-self":
+            v = [1, b"x"]
+            v.append(v)
+            return v
+        if kind == "dict-self":
+            v = {"name": "d"}
+            v["me"] = v
+            return v
+        if kind == "tree-parent":
+            root = Obj(name="root", children=[])
+            child = Obj(name="leaf", parent=root)
+            root.children.append(child)
+            return root
+        if kind == "shared":
+            x = [1, 2]
+            return [x, x, {"again": x}]
     raise ValueError(spec)
 
 
@@ -240,6 +258,8 @@ def show_spec(spec, depth=0):
         return "{" + ",".join(f"{show_spec(k)}:{show_spec(v)}" for k, v in spec[1]) + "}"
     if t == "obj":
         return "Obj(" + ",".join(f"{n}={show_spec(s)}" for n, s in spec[1]) + ")"
+    if t == "cyc":
+        return f"<{spec[1]} object graph>"
     return repr(spec)
 
 
@@ -302,6 +322,7 @@ def leaves():
           ["sub", "MyDict", ["dict", [[["b", "a", 1], ["i", "lit", "1"]]]]],
           ["sub", "MyDict", ["dict", []], [["note", ["b", "a", 2]]]],
           ["point", ["i", "lit", "1"], ["b", "a", 1]]]
+    L += [["cyc", "list-self"], ["cyc", "dict-self"], ["cyc", "tree-parent"], ["cyc", "shared"]]
     # lists whose pickle straddles each threshold, for every protocol (stdlib pickle as ruler)
     seen = set()
     for p in PROTOCOLS:
@@ -361,7 +382,28 @@ def values(depth):
 # structural equality with exact types
 
 
+_SEEN = None
+
+
 def same(a, b):
+    """Structural equality with exact types; tolerates cyclic object graphs."""
+    global _SEEN
+    top = _SEEN is None
+    if top:
+        _SEEN = set()
+    try:
+        if isinstance(a, (list, dict, Obj)):
+            key = (id(a), id(b))
+            if key in _SEEN:
+                return True  # already being compared further up: the cycle closes the same way
+            _SEEN.add(key)
+        return _same0(a, b)
+    finally:
+        if top:
+            _SEEN = None
+
+
+def _same0(a, b):
     if type(a) is not type(b):
         return False
     if a is None or a is Ellipsis or isinstance(a, (bool, enum.Enum)):
